@@ -165,6 +165,7 @@ Encoder::SegmentType Encoder::buildSegmentationFlag(
 void Encoder::clearEncodingMetadata(bool clearSequenceCounter)
 {
     bytesLeft = 0;
+    messageType = CmpHeader::MessageType::undefined;
     cmpFrames.clear();
     cmpFrameTemplate.clear();
 
